@@ -507,6 +507,18 @@ def malformed(prog, chk):
                             parsed_ok.append(x)
                 ok = bool(parsed_ok) and all(b.dominates(tt, x) for x in parsed_ok) and R.assigns_result_variant(b, b.reach([ft], avoid=[tt]), "Err")
         chk.ob(ok, "A13.trailing-tokens", fn.split("::")[-1], b.where(), "a parsed value is returned only when no tokens remain (trailing garbage is an error)", "an expression can be accepted with unconsumed tokens")
+    # who runs the list parser: the two entries checked above, the parser itself (a parenthesised / argument list) - and
+    # nobody else without looking at what is left over
+    parser = prog.reachable_from({prog.body(EXPR + "expr_list").id}) if hasattr(prog, "reachable_from") else set()
+    for b2 in prog.bodies.values():
+        if b2.unit != "svgdx-lib" or b2.path in ("svgdx::expression::evaluate_inner", "svgdx::expression::EvalState::<'a>::lookup") or b2.id in parser:
+            continue
+        calls = b2.call_sites(R.path_is(EXPR + "expr_list"))
+        if not calls:
+            continue
+        chk.touch(b2)
+        looks = b2.call_sites(lambda c: c.path.endswith("EvalState::<'a>::peek") or c.path.split("::")[-1] in ("is_empty", "len") and "Token" in c.inst)
+        chk.ob(bool(looks), "A13.trailing-tokens", f"{b2.short}:direct-parse", b2.where(calls[0][0], calls[0][1].get("line")), "a function that runs the list parser itself also tests what is left of the tokens", f"{b2.short} runs expr_list() on its own EvalState and never looks at the tokens left over (no peek()): whatever follows the first token the list parser cannot consume is silently dropped - `data=\"1, 2 3\"` is the list [1, 2]")
     # unknown function / variable errors propagate: parse::<Function>()? in primary_inner
     pi = prog.body(EXPR + "primary_inner")
     from sa import errfate
